@@ -76,7 +76,7 @@ for tname in ("T_MX", "T_SRV"):
     # the same obligation group on the ROW-SHRUNK text of dns.c (vc: RAW_SHRINK_SETS["dnsnames3"]): names[250][256] -> names[3][256] and
     # the acceptance bound 2500 -> 30 with the comparison operator of the source kept.  This finishes; what it drops is the number of
     # rows (250), stated in evidence (extraction_drops).  Loop contracts: loops/dns_mx.inv (dns.inv with the row count as a parameter).
-    G(name="dns_decode_answer_%s_rows3" % tname, harness="h_dns.c", entry="h_dns_decode", defs=["H_QR=QR_ANSWER", "H_TYPE=" + tname, "NAMES_ROWS=3", "VERIF_STRLEN_MEMO=1"], wip=(tname == "T_SRV"),   # SRV variant: first green run pending, not part of any check yet
+    G(name="dns_decode_answer_%s_rows3" % tname, harness="h_dns.c", entry="h_dns_decode", defs=["H_QR=QR_ANSWER", "H_TYPE=" + tname, "NAMES_ROWS=3", "VERIF_STRLEN_MEMO=1"], wip=False,
       style="legacy",
       enforce=["dns_decode"], loops="dns_mx.inv", loop_fns=["dns_decode"], checks=PARSE_CHECKS, discard_cls=PARSE_DISCARD, shrink_raw="dnsnames3",
       props={"C12": "all", "C06": "safety"}, min_obl=100, timeout=900, cost=60, mem_gb=24,
